@@ -324,7 +324,7 @@ Definition c07_verdicts (l : list c07_case) := nonzero (map c07_verdict l).
 Definition c13_target_beyond_stop (k : c07_case) : bool :=
   match k with
   | C07Skip => false
-  | mkC07 first kept bundle root arrival a0 hubstart merged mode start cur live stop filt custom pauses canon forked events pushed err =>
+  | mkC07 first kept bundle root arrival a0 hubstart merged mode start cur live stop filt custom pauses canon forked events pushed err _ =>
       (mode =? 2) && (err =? 1) && negb (stop =? 0) && ((filt =? 0) || (filt =? 1)) &&
       match cur with Some cu => stop <=? rn (cu_blk cu) | None => false end &&
       existsb (fun b => (bnum b =? stop) && (abs_start first start 0 <=? bnum b)) canon &&
